@@ -444,26 +444,33 @@ def tolerance(case, rows):
     return Fr(1, 2 ** 46) * (1 + mag)
 
 
-def snap_lengths(impl_rows, inp_rows, gap, tol):
+def snap_lengths(impl_rows, inp_rows, gap, tol, prefer="rule"):
     """stream T: replace each implementation length by the exact value it rounds (a difference of two offsets of
-    its column minus gap, or an input length at that place) when within tol — candidates come from the input only"""
+    its column minus gap, or an input length at that place) when within tol — candidates come from the input only.
+    When a value of BOTH families lies within tol (a hold whose given length already is, up to rounding, what the rule
+    yields: the second call of a session) the two are indistinguishable on this stream; `prefer` says which is taken."""
     cols = by_column(inp_rows)
     out = []
     for (off, c, ln) in impl_rows:
         if ln is None:
             out.append((off, c, ln))
             continue
-        cands = [t[0] - off - gap for t in cols.get(c, [])] + [t[2] for t in cols.get(c, []) if t[0] == off and t[2] is not None]
-        best = min(cands, key=lambda v: abs(v - ln)) if cands else None
-        out.append((off, c, best if best is not None and abs(best - ln) <= tol else ln))
+        fam = dict(rule=[t[0] - off - gap for t in cols.get(c, [])],
+                   given=[t[2] for t in cols.get(c, []) if t[0] == off and t[2] is not None])
+        pick = ln
+        for name in ([prefer] + [k for k in ("rule", "given") if k != prefer]):
+            cands = fam[name]
+            best = min(cands, key=lambda v: abs(v - ln)) if cands else None
+            if best is not None and abs(best - ln) <= tol:
+                pick = best
+                break
+        out.append((off, c, pick))
     return out
 
 
 # ------------------------------------------------------------------------------------------ run
 
 def run(case, drv):
-    import warnings
-    from reamber.algorithms.generate.full_ln import full_ln
     gap, thr = F(case["gap"]), F(case["thr"])
     via = case.get("via", "api")
     tags = ["via:" + via + (":" + case["fmt"] if via == "read" else "")]
@@ -475,20 +482,41 @@ def run(case, drv):
     # ---- the input chart: built through the list API, read by a real reader, converted, rated
     try:
         m = load_chart(case)
+    except Skip as e:
+        return _skipped(tags, e)
+    if case.get("session") is not None:
+        return run_session(case, m, drv, tags)
+    fixed_mode = case["mode"] if (via == "api" and not case.get("post")) else None
+    r, _res = judge_call(m, gap, thr, drv, case, tags, fixed_mode)
+    return r
+
+
+def _skipped(tags, e):
+    return dict(claim="full_ln", ok=True, agree=True, dom=False, kf=None, tags=tags + ["skipped", "skip:" + str(e).split(":")[0][:40]],
+                nontrivial=False, detail={})
+
+
+def judge_call(m, gap, thr, drv, case, tags, fixed_mode=None):
+    """ONE call `full_ln(m, gap, thr)` judged against the chart's CURRENT content, which is read here, right before the
+    call, through the plain list API (`m.hits.df`, `m.holds.df`, `m.objs[k].df` — never through `stack()`).
+    Returns (result dict, the chart full_ln returned | None)."""
+    import warnings
+    from reamber.algorithms.generate.full_ln import full_ln
+    via = case.get("via", "api")
+    try:
         extras, hits_s, holds = chart_rows(m)
     except Skip as e:
-        return dict(claim="full_ln", ok=True, agree=True, dom=False, kf=None, tags=tags + ["skipped", "skip:" + str(e).split(":")[0][:40]],
-                    nontrivial=False, detail={})
+        return _skipped(tags, e), None
     tags.append(type(m).__name__)
     hits = [(o, c, None) for (o, c, _l) in hits_s]          # kind of a note = the list it lives in
     stray = any(l is not None for (_o, _c, l) in hits_s)
     inp = hits + holds
-    if via == "api" and not case.get("post"):
-        mode = case["mode"]
+    if fixed_mode is not None:
+        mode = fixed_mode
     else:
         mode = "E" if all(e_exact(v) for r in inp for v in (r[0], r[2] if r[2] is not None else Fr(0))) and e_exact(gap) and e_exact(thr) else "T"
     tags.append(mode)
-    mcase = dict(case, mode=mode)
+    mcase = dict(case, mode=mode, gap=R(gap), thr=R(thr))
     snapshot = {k: v.df.copy(deep=True) for k, v in m.objs.items() if k not in ("hits", "holds")}
     impl_err = None
     res = None
@@ -513,7 +541,7 @@ def run(case, drv):
         tags.append("impl-raises")
         # the property promises a result for every chart, and the model never raises
         return dict(claim="full_ln", ok=False, agree=False, dom=dom, kf=None, tags=tags, nontrivial=nontrivial,
-                    detail=dict(impl_error=impl_err, model=mo))
+                    detail=dict(impl_error=impl_err, model=mo)), None
     # ---- result of the implementation
     bad = None
     try:
@@ -547,6 +575,12 @@ def run(case, drv):
         out_new_s = out_new
     # ---- (S) specification on the implementation's output: hits+holds of the result against hits+holds of the input
     sp = drv.call("c17.spec", gap=R(gap), thr=R(thr), inp=[jrow(r) for r in inp], out=[jrow(r) for r in out_new_s])["ok"]
+    if mode == "T" and not (sp["spec"] and sp["no_overlap"]):
+        alt = snap_lengths(out_new, seen, gap, tol, prefer="given")
+        if alt != out_new_s:
+            sp2 = drv.call("c17.spec", gap=R(gap), thr=R(thr), inp=[jrow(r) for r in inp], out=[jrow(r) for r in alt])["ok"]
+            if sp2["spec"] and sp2["no_overlap"]:
+                sp = sp2
     if boundary:
         ok = sp["conservation"] and others_ok and bad is None
         tags.append("float-boundary")
@@ -596,7 +630,294 @@ def run(case, drv):
                       impl_hits=[str(x) for x in r_hits[:40]], impl_holds=[str(x) for x in r_holds[:40]],
                       impl_extras=[str(x) for x in r_extras[:20]], model=mo)
     return dict(claim="full_ln", ok=ok, agree=agree, dom=dom, kf=None, tags=tags, nontrivial=nontrivial, maxdev=maxdev,
-                boundary=boundary, detail=detail)
+                boundary=boundary, detail=detail), res
+
+
+# ------------------------------------------------------------------------------------------ sessions
+#
+# A session is a HISTORY on one lineage of chart objects: the chart of the case (m0), then per step
+#     pick an object of the lineage (m0, an earlier result, an earlier derived copy) — optionally derive a new object from it
+#     (deepcopy / rate) — edit it IN PLACE through the routes the library offers — call full_ln on it.
+# Every call is judged on its own (judge_call): the specification and the model get the content the chart has at the
+# moment of the call, read through the plain list API.  A result may depend on nothing but that content.
+
+STACK_TYPES = ["all", "hh", "hh_base", "notes", "holds", "hits"]
+EDIT_KINDS = ["col", "stack", "loc", "rebuild", "swapkind", "retime"]
+MAX_STEPS = 4
+MAX_EDITS = 4
+
+
+def _stack_of(m, types):
+    from reamber.base.lists.notes.HitList import HitList
+    from reamber.base.lists.notes.HoldList import HoldList
+    from reamber.base.lists.notes.NoteList import NoteList
+    if types == "all":
+        return m.stack()
+    if types == "hh":
+        return m.stack((type(m.hits), type(m.holds)))       # the very key full_ln uses
+    if types == "hh_base":
+        return m.stack((HitList, HoldList))
+    if types == "notes":
+        return m.stack((NoteList,))
+    if types == "holds":
+        return m.stack((type(m.holds),))
+    if types == "hits":
+        return m.stack((type(m.hits),))
+    raise Skip("unknown stack types")
+
+
+def _arith(cur, op, v):
+    return cur + v if op == "add" else cur * v
+
+
+def _cur_rows(lst):
+    """rows of a list as exact wire rows, through the list API"""
+    df = lst.df
+    has_len = "length" in type(lst)([]).df.columns          # the list class declares a length (an undeclared one is dropped)
+    offs, cols = df["offset"].tolist(), df["column"].tolist()
+    lens = df["length"].tolist() if has_len else [None] * len(offs)
+    out = []
+    for o, c, l in zip(offs, cols, lens):
+        row = [R(fin(o)), _intcol(c)]
+        if has_len:
+            row.append(R(fin(l)))
+        out.append(row)
+    return out
+
+
+def apply_edit(m, ed):
+    """one in-place edit of chart `m`; raises Skip when the route does not apply to this chart"""
+    import numpy as np
+    k = ed["k"]
+    if k == "col":                                   # column assignment through a list property
+        lst = m.objs[ed["list"]]
+        f, v = ed["field"], F(ed["v"])
+        if f == "length" and "length" not in lst.df.columns:
+            raise Skip("no length column")
+        if f == "column":
+            setattr(lst, f, (getattr(lst, f) + int(v)) % int(ed.get("keys", 4)))
+        else:
+            setattr(lst, f, _arith(getattr(lst, f), ed["op"], float(v)))
+        return
+    if k == "stack":                                 # m.stack(types).<field> op= v
+        st = _stack_of(m, ed["types"])
+        f, v = ed["field"], float(F(ed["v"]))
+        setattr(st, f, _arith(getattr(st, f), ed["op"], v))
+        return
+    if k == "loc":                                   # st.loc[condition, field] op= v
+        st = _stack_of(m, ed["types"])
+        cf, cmp_, cv = ed["cond"]["f"], ed["cond"]["cmp"], float(F(ed["cond"]["v"]))
+        colv = getattr(st, cf)
+        mask = (colv < cv) if cmp_ == "<" else (colv >= cv) if cmp_ == ">=" else (colv == cv)
+        f, v = ed["field"], float(F(ed["v"]))
+        if ed.get("aslist"):
+            st.loc[mask, [f]] = _arith(st.loc[mask, [f]], ed["op"], v)
+        else:
+            st.loc[mask, f] = _arith(st.loc[mask, f], ed["op"], v)
+        return
+    if k == "rebuild":                               # a NEW list with the same number of rows replaces the old content
+        which = ed["list"]
+        lst = m.objs[which]
+        rows = _cur_rows(lst)
+        d = F(ed["shift"])
+        rows = [[R(F(r[0]) + d)] + r[1:] for r in rows]
+        if ed["perm"] == "reverse":
+            rows = rows[::-1]
+        elif ed["perm"] == "rotate" and rows:
+            rows = rows[1:] + rows[:1]
+        elif ed["perm"] == "mirror":                 # every note to another time of the same span
+            if rows:
+                lo, hi = min(F(r[0]) for r in rows), max(F(r[0]) for r in rows)
+                rows = [[R(lo + hi - F(r[0]))] + r[1:] for r in rows]
+        new = make_list(type(lst), rows, ed.get("build", "frame"))
+        how = ed["how"]
+        if how == "prop":
+            setattr(m, which, new)                   # map property setter: swaps .df on the same list object
+        elif how == "objs":
+            m.objs[which] = new                      # another list object
+        elif how == "df":
+            lst.df = new.df                          # the frame is replaced on the same list object
+        elif how == "dfcopy":
+            lst.df = new.df.copy()
+        else:
+            raise Skip("unknown rebuild route")
+        return
+    if k == "swapkind":                              # filter one list, append to the other: the row total stays
+        src, dst = ("hits", "holds") if ed["dir"] == "h2l" else ("holds", "hits")
+        a, b = m.objs[src], m.objs[dst]
+        rows = _cur_rows(a)
+        n = len(rows)
+        if n == 0:
+            return
+        sel = sorted({i % n for i in ed["sel"]})
+        mask = np.ones(n, dtype=bool)
+        mask[sel] = False
+        moved = [rows[i] for i in sel]
+        if dst == "holds":
+            moved = [[r[0], r[1], ed["len"]] for r in moved]
+        else:
+            moved = [[r[0], r[1]] for r in moved]
+        setattr(m, src, a[mask])
+        setattr(m, dst, b.append(make_list(type(b), moved, ed.get("build", "frame"))))
+        return
+    if k == "retime":                                # filter some rows out and append as many at other times
+        which = ed["list"]
+        a = m.objs[which]
+        rows = _cur_rows(a)
+        n = len(rows)
+        if n == 0:
+            return
+        sel = sorted({i % n for i in ed["sel"]})
+        mask = np.ones(n, dtype=bool)
+        mask[sel] = False
+        d = F(ed["shift"])
+        moved = [[R(F(rows[i][0]) + d)] + rows[i][1:] for i in sel]
+        new = a[mask].append(make_list(type(a), moved, ed.get("build", "frame")), sort=bool(ed.get("sort")))
+        setattr(m, which, new)
+        return
+    raise Skip("unknown edit")
+
+
+def run_session(case, m0, drv, tags):
+    import logging
+    import warnings
+    lineage = [m0]
+    results = []
+    stopped = None
+    for si, st in enumerate(case["session"]):
+        try:
+            logging.disable(logging.CRITICAL)
+            with warnings.catch_warnings():
+                warnings.simplefilter("ignore")
+                try:
+                    obj = lineage[int(st.get("src", -1)) % len(lineage)]
+                    dv = st.get("derive")
+                    if dv is not None:
+                        if dv["op"] == "deepcopy":
+                            obj = obj.deepcopy()
+                        elif dv["op"] == "rate":
+                            obj = obj.rate(float(F(dv["by"])))
+                        else:
+                            raise Skip("unknown derivation")
+                        lineage.append(obj)
+                        tags.append("derive:" + dv["op"])
+                    for ed in st.get("edits") or []:
+                        apply_edit(obj, ed)
+                        tags.append("edit:" + ed["k"] + (":" + ed["how"] if ed["k"] == "rebuild" else "")
+                                    + (":" + ed["types"] if ed["k"] in ("stack", "loc") else ""))
+                except Skip:
+                    raise
+                except Exception as e:
+                    raise Skip("edit-refused:" + type(e).__name__)
+                finally:
+                    logging.disable(logging.NOTSET)
+        except Skip as e:
+            stopped = str(e).split(":")[0][:40] + ":" + str(e).split(":")[-1][:30]
+            break
+        t = []
+        r, res = judge_call(obj, F(st["gap"]), F(st["thr"]), drv, case, t)
+        for x in t:
+            if x not in tags:
+                tags.append(x)
+        if "skipped" in r["tags"]:
+            stopped = "call-skipped"
+            break
+        results.append((si, r))
+        if res is None or not (r["ok"] and r["agree"]):
+            break
+        lineage.append(res)
+    tags.append("session")
+    tags.append(f"calls:{len(results)}")
+    if stopped:
+        tags.append("session-stopped:" + stopped)
+    if not results:
+        return dict(claim="full_ln", ok=True, agree=True, dom=False, kf=None, tags=tags + ["skipped"], nontrivial=False, detail={})
+    bad = [(si, r) for si, r in results if not (r["ok"] and r["agree"])]
+    detail = {}
+    if bad:
+        si, r = bad[0]
+        detail = dict(step=si, calls_before=len(results) - 1, **r["detail"])
+    return dict(claim="full_ln", ok=all(r["ok"] for _, r in results), agree=all(r["agree"] for _, r in results),
+                dom=(bad[0][1]["dom"] if bad else all(r["dom"] for _, r in results)), kf=None, tags=tags,
+                nontrivial=len(results) >= 2 and any(r["nontrivial"] for _, r in results),
+                maxdev=max(r.get("maxdev", 0.0) for _, r in results), boundary=any(r.get("boundary") for _, r in results),
+                detail=detail)
+
+
+def gen_edit(rng, exact):
+    def num(choices_e, lo, hi):
+        if exact:
+            return Fr(rng.choice(choices_e))
+        return Fr(round(rng.uniform(lo, hi), rng.choice([0, 1, 3])))
+    shift = lambda: num([1500, 33, 1, 250, -100, 1000, Fr(1, 2), Fr(7, 4), -1500, 64, 100000], -2000, 5000)
+    k = rng.choice(["col", "col", "stack", "stack", "stack", "loc", "loc", "rebuild", "rebuild", "swapkind", "retime"])
+    build = rng.choice(BUILDS)
+    if k == "col":
+        lst = rng.choice(["hits", "holds", "holds"])
+        f = rng.choice(["offset", "offset", "length", "column"]) if lst == "holds" else rng.choice(["offset", "offset", "column"])
+        if f == "column":
+            return dict(k=k, list=lst, field=f, op="add", v=R(Fr(rng.choice([1, 2, 3]))), keys=rng.choice([2, 3, 4, 7]))
+        if f == "length":
+            op = rng.choice(["add", "add", "mul"])
+            v = num([33, 1, 100, 500, Fr(1, 4)], 0, 500) if op == "add" else Fr(rng.choice([2, 4, Fr(1, 2), 3]))
+            return dict(k=k, list=lst, field=f, op=op, v=R(v))
+        op = rng.choice(["add", "add", "add", "mul"])
+        v = shift() if op == "add" else Fr(rng.choice([2, Fr(1, 2), 4, 3]))
+        return dict(k=k, list=lst, field=f, op=op, v=R(v))
+    if k in ("stack", "loc"):
+        types = rng.choice(["all", "all", "hh", "hh_base", "notes", "holds", "hits"])
+        f = "offset" if types == "hits" else rng.choice(["offset", "offset", "offset", "length"])
+        if f == "length":
+            op = rng.choice(["add", "mul"])
+            v = num([33, 1, 100, 500, Fr(1, 4)], 0, 500) if op == "add" else Fr(rng.choice([2, 4, Fr(1, 2), 3]))
+        else:
+            op = rng.choice(["add", "add", "add", "mul"])
+            v = shift() if op == "add" else Fr(rng.choice([2, Fr(1, 2), 4, 3]))
+        ed = dict(k=k, types=types, field=f, op=op, v=R(v))
+        if k == "loc":
+            cf = rng.choice(["column", "column", "offset"]) if types != "all" else "offset"
+            if cf == "column":
+                cond = dict(f=cf, cmp=rng.choice(["<", ">=", "=="]), v=R(Fr(rng.choice([0, 1, 1, 2, 3]))))
+            else:
+                cond = dict(f=cf, cmp=rng.choice(["<", ">="]), v=R(num([0, 250, 1000, 5000, 50000], -2000, 100000)))
+            ed["cond"] = cond
+            if rng.random() < 0.3:
+                ed["aslist"] = True
+        return ed
+    if k == "rebuild":
+        return dict(k=k, list=rng.choice(["hits", "holds"]), how=rng.choice(["prop", "prop", "objs", "df", "dfcopy"]),
+                    perm=rng.choice(["same", "reverse", "rotate", "mirror", "mirror"]), shift=R(shift() if rng.random() < 0.7 else Fr(0)),
+                    build=build)
+    if k == "swapkind":
+        return dict(k=k, dir=rng.choice(["h2l", "l2h"]), sel=[rng.randrange(0, 1000) for _ in range(rng.choice([1, 1, 2, 3, 8]))],
+                    len=R(num([0, 1, 40, 100, 700], 0, 900)), build=build)
+    return dict(k="retime", list=rng.choice(["hits", "holds"]), sel=[rng.randrange(0, 1000) for _ in range(rng.choice([1, 2, 3, 8]))],
+                shift=R(shift()), sort=rng.random() < 0.3, build=build)
+
+
+def gen_session(rng, case):
+    """2-4 full_ln calls on one lineage of chart objects with edits in between"""
+    exact = case.get("mode", "E") == "E"
+    steps = []
+    n = rng.choice([2, 2, 3, 3, 4])
+    for i in range(n):
+        gap, thr = gen_params(rng, "E" if exact or rng.random() < 0.5 else "T")
+        st = dict(gap=R(gap), thr=R(thr))
+        r = rng.random()
+        if i == 0:
+            st["src"] = 0
+        else:
+            # mostly the latest result (the object a user keeps working with), else anything of the lineage
+            st["src"] = -1 if r < 0.65 else rng.randrange(0, 8)
+        r = rng.random()
+        if r < 0.15:
+            st["derive"] = dict(op="deepcopy")
+        elif r < 0.25:
+            st["derive"] = dict(op="rate", by=R(Fr(rng.choice([2.0, 0.5, 4.0, 0.25, 1.5, 1.1]))))
+        ne = rng.choice([0, 1, 1, 1, 2, 3]) if i > 0 else rng.choice([0, 0, 0, 1, 2])
+        st["edits"] = [gen_edit(rng, exact) for _ in range(ne)]
+        steps.append(st)
+    return steps
 
 
 # ------------------------------------------------------------------------------------------ generators
@@ -830,6 +1151,8 @@ def gen(rng, tier, i):
         if case.get("via") != "read" and not case.get("bpms"):
             case["bpms"] = [[R(Fr(0)), R(Fr(120))]]
         case["post"] = [gen_post(rng, case)]
+    if rng.random() < 0.35:
+        case["session"] = gen_session(rng, case)
     return case
 
 
@@ -900,6 +1223,25 @@ def corpus():
     # D24 (repaired) witness shape: Quaver charts with notes
     c.append(_c("qua", G, T, [(0, 0)], []))
     c.append(_c("qua", G, T, [(0, 0), (250, 0), (249, 1)], [(100, 1, 30), (900, 0, 10)]))
+    # sessions: repeated calls on one lineage of chart objects with in-place edits in between; every call is judged against
+    # the content the chart has when it is called (seeded change C17-G: Map.stack() handed out a cached, stale Stacker)
+    S = lambda gap, thr, edits=(), src=-1, derive=None: dict(gap=R(Fr(gap)), thr=R(Fr(thr)), src=src, edits=list(edits),
+                                                             **({"derive": derive} if derive else {}))
+    for g in ["base", "osu", "sm", "qua"]:
+        chart = lambda **kw: _c(g, G, T, [(0, 0), (400, 0), (1000, 0), (1000, 2), (1300, 2)], [(100, 1, 50), (900, 1, 700), (2000, 0, 250)],
+                                bpms=[(0, 120)], **kw)
+        c.append(chart(session=[S(G, T, src=0), S(40, 60, [dict(k="stack", types="all", field="offset", op="add", v=R(Fr(1500)))])]))
+        c.append(chart(session=[S(G, T, src=0), S(G, T, [dict(k="col", list="holds", field="length", op="add", v=R(Fr(33)))])]))
+        c.append(chart(session=[S(G, T, src=0), S(0, 0, [dict(k="col", list="hits", field="offset", op="mul", v=R(Fr(2))),
+                                                          dict(k="col", list="holds", field="offset", op="mul", v=R(Fr(2)))])]))
+        c.append(chart(session=[S(G, T, [dict(k="stack", types="hh", field="offset", op="add", v=R(Fr(0)))], src=0),
+                                S(G, T, [dict(k="rebuild", list="holds", how="prop", perm="mirror", shift=R(Fr(64)), build="dict")], src=0)]))
+        c.append(chart(session=[S(G, T, src=0), S(10, 5, [dict(k="swapkind", dir="l2h", sel=[0, 1], len=R(Fr(40)), build="items")]),
+                                S(G, T, [dict(k="loc", types="notes", field="offset", op="add", v=R(Fr(250)),
+                                              cond=dict(f="column", cmp="==", v=R(Fr(0))))], derive=dict(op="deepcopy")),
+                                S(0, 0, [dict(k="retime", list="hits", sel=[0, 5], shift=R(Fr(-100)), build="frame_int")], src=0)]))
+        c.append(chart(session=[S(G, T, src=0), S(G, T, [dict(k="rebuild", list="hits", how="df", perm="rotate", shift=R(Fr(7, 4)), build="ldict")],
+                                                  derive=dict(op="rate", by=R(Fr(2))))]))
     return c
 
 
@@ -941,8 +1283,81 @@ def _post_ok(case):
     return True
 
 
+def _edit_ok(ed):
+    if not isinstance(ed, dict) or ed.get("k") not in EDIT_KINDS:
+        return False
+    k = ed["k"]
+    rat = lambda x: _is_rat(x, "T")
+    if ed.get("build", "frame") not in BUILDS:
+        return False
+    if k == "col":
+        if ed.get("list") not in ("hits", "holds") or ed.get("field") not in ("offset", "length", "column") or not rat(ed.get("v")):
+            return False
+        if ed["field"] == "length" and ed["list"] != "holds":
+            return False
+        if ed["field"] == "column":
+            return ed["v"][1] == 1 and 0 <= ed["v"][0] <= 17 and isinstance(ed.get("keys", 4), int) and 1 <= ed.get("keys", 4) <= 18
+        if ed.get("op") not in ("add", "mul"):
+            return False
+        if ed["op"] == "mul" and ed["v"][0] <= 0:
+            return False
+        return not (ed["field"] == "length" and ed["v"][0] < 0)
+    if k in ("stack", "loc"):
+        if ed.get("types") not in STACK_TYPES or ed.get("field") not in ("offset", "length") or ed.get("op") not in ("add", "mul"):
+            return False
+        if not rat(ed.get("v")) or (ed["op"] == "mul" and ed["v"][0] <= 0) or (ed["field"] == "length" and ed["v"][0] < 0):
+            return False
+        if ed["field"] == "length" and ed["types"] == "hits":
+            return False
+        if k == "loc":
+            c = ed.get("cond")
+            if not (isinstance(c, dict) and c.get("f") in ("column", "offset") and c.get("cmp") in ("<", ">=", "==") and rat(c.get("v"))):
+                return False
+            if c["f"] == "column" and ed["types"] == "all":
+                return False
+        return True
+    if k == "rebuild":
+        return (ed.get("list") in ("hits", "holds") and ed.get("how") in ("prop", "objs", "df", "dfcopy")
+                and ed.get("perm") in ("same", "reverse", "rotate", "mirror") and rat(ed.get("shift")))
+    if k == "swapkind":
+        return (ed.get("dir") in ("h2l", "l2h") and isinstance(ed.get("sel"), list) and 1 <= len(ed["sel"]) <= 8
+                and all(isinstance(i, int) and not isinstance(i, bool) and i >= 0 for i in ed["sel"])
+                and rat(ed.get("len")) and ed["len"][0] >= 0)
+    if k == "retime":
+        return (ed.get("list") in ("hits", "holds") and isinstance(ed.get("sel"), list) and 1 <= len(ed["sel"]) <= 8
+                and all(isinstance(i, int) and not isinstance(i, bool) and i >= 0 for i in ed["sel"]) and rat(ed.get("shift")))
+    return False
+
+
+def _session_ok(case):
+    ss = case.get("session")
+    if ss is None:
+        return True
+    if not isinstance(ss, list) or not (1 <= len(ss) <= MAX_STEPS):
+        return False
+    for st in ss:
+        if not isinstance(st, dict) or not (_is_rat(st.get("gap"), "T") and _is_rat(st.get("thr"), "T")):
+            return False
+        if st["gap"][0] < 0 or st["thr"][0] < 0:
+            return False
+        if not isinstance(st.get("src", -1), int) or isinstance(st.get("src", -1), bool):
+            return False
+        dv = st.get("derive")
+        if dv is not None:
+            if not isinstance(dv, dict) or dv.get("op") not in ("deepcopy", "rate"):
+                return False
+            if dv["op"] == "rate" and not (_is_rat(dv.get("by"), "T") and dv["by"][0] > 0):
+                return False
+        eds = st.get("edits", [])
+        if not isinstance(eds, list) or len(eds) > MAX_EDITS or not all(_edit_ok(e) for e in eds):
+            return False
+    return True
+
+
 def valid(case):
     try:
+        if not _session_ok(case):
+            return False
         if case.get("via") == "read":
             return (case.get("claim") == "full_ln" and case.get("fmt") in ("osu", "qua", "sm", "bms", "o2j")
                     and isinstance(case.get("payload"), dict) and isinstance(case.get("pick", 0), int)
